@@ -293,7 +293,8 @@ def project_case(rng):
         extra["legacy/old/Old.java"] = "package old; public class Old { int f() { return 1; } }\n"
         extra["src/testData/x/Sample.java"] = "package x; public class Sample { }\n"
     files.update(extra)
-    return {"op": "full", "files": files, "units": [{"path": b["path"], "events": b["events"], "ievents": b["facts"]["ievents"]} for b in built],
+    return {"op": "full", "cli": rng.random() < 0.1,     # one tree in ten through the real `coca analysis -p dir` (identify.json, deps.json)
+            "files": files, "units": [{"path": b["path"], "events": b["events"], "ievents": b["facts"]["ievents"]} for b in built],
             "identKeys": [b["unit"]["pkg"] + "." + b["unit"]["name"] for b in built],
             "truth": [{"path": b["path"], "pkg": b["unit"]["pkg"], "name": b["unit"]["name"], "kind": b["unit"]["kind"], "ext": b["unit"].get("ext"),
                        "annos": [javagen.anno_model(a) for a in b["unit"].get("annos", [])], "imports": b["unit"]["imports"],
